@@ -283,6 +283,26 @@ func C15(c *Ctx) error {
 			}
 		}
 	}
+	// go-http reads `generate_mock` as a boolean flag: every spelling of true selects the mock file,
+	// every spelling of false (and no parameter at all) does not
+	mockSpellings := map[string][]string{
+		"generate_mock=true":  {"generate_mock=1", "generate_mock=t", "generate_mock=T", "generate_mock=TRUE", "generate_mock=True", "paths=source_relative,generate_mock=true,paths=import", "generate_mock=false,generate_mock=true"},
+		"generate_mock=false": {"", "generate_mock=0", "generate_mock=f", "generate_mock=F", "generate_mock=FALSE", "generate_mock=False", "generate_mock=true,generate_mock=false"},
+	}
+	for bi, b := range bases {
+		if bi%7 != 0 && bi < len(bases)-2 {
+			continue
+		}
+		for canon, alts := range mockSpellings {
+			refReq := b.req.Clone()
+			refReq.Parameter = canon
+			for si, sp := range alts {
+				alt := b.req.Clone()
+				alt.Parameter = sp
+				jobs = append(jobs, &cmpJob{b: b, plugin: plug.GoHTTP, variant: fmt.Sprintf("parameter_spelling:%s#%d", canon, si), altReq: alt, refReq: refReq})
+			}
+		}
+	}
 	refs := map[string]*plug.Result{}
 	type refKey struct {
 		i int
@@ -321,7 +341,7 @@ func C15(c *Ctx) error {
 		var ps []string
 		var pj []*cmpJob
 		for _, j := range jobs {
-			if j.refReq != nil && j.err == nil && j.alt != nil && j.alt.OK() && len(j.alt.Files) > 0 {
+			if j.refReq != nil && j.plugin == plug.OpenAPI && j.err == nil && j.alt != nil && j.alt.OK() && len(j.alt.Files) > 0 {
 				ps = append(ps, j.altReq.Parameter)
 				pj = append(pj, j)
 			}
